@@ -1352,6 +1352,10 @@ def rule_r7(facts, rep, rid="C01-R7"):
             if not cal.startswith(("std::iter::", "core::iter::", "itertools::", "rayon::iter::", "std::vec::Vec::", "alloc::vec::Vec::", "core::slice::", "std::slice::",
                                    "std::collections::VecDeque::", "alloc::collections::")):
                 continue        # maps/sets/strings/local methods: not a content sequence
+            # only sequences that carry note content: an adapter over plain numbers (line-start offsets, indices, counts) cannot drop a block or a word
+            rty_ = str(x.get("rty") or "")
+            if rty_ and "liwe::" not in rty_ and "pulldown" not in rty_ and any(t_ in rty_ for t_ in ("usize", "u32", "u64", "i64", "u8")):
+                continue
             # `.map(f).flatten()`, `.filter_map(f)` and `.flat_map(f)` are one family: an audit of one form covers the others
             fam = "flatten" if x["name"] in ("filter_map", "flat_map") else x["name"]
             i = counts.get(fam, 0)
@@ -1571,6 +1575,8 @@ def run(facts, rep, tier):
              "taken for a note reference gets the extension / title / path treatment of one).")
     from . import c05
     c05.rule_r3(facts, rep, "C01-R4c")
+    rep.rule("C01-R4d", "= C05-R7: only a one-inline paragraph is a block reference (otherwise the other inlines of the paragraph are dropped when the note is formatted).")
+    c05.rule_r7(facts, rep, "C01-R4d")
 
 class _Only:
     """Forwards only the instances whose key contains a marker."""
